@@ -27,7 +27,9 @@ import (
 //	                 slice variables s, and for each such s a later statement of fn (after the loop, at any nesting)
 //	                 calls sort.Slice / sort.SliceStable / sort.Strings / sort.Sort / sort.Stable / slices.Sort* on s,
 //	                 AND no statement between the end of the loop and that first sort call mentions s or the bare
-//	                 variable s is a field of (`f(b)` while `b.S` is unsorted) - see usedBeforeSorted
+//	                 variable s is a field of (`f(b)` while `b.S` is unsorted) - see usedBeforeSorted; a sort call with
+//	                 a comparator literal counts only if the comparator is proper (sortcomparators.go scProper: it
+//	                 compares a key of element i with the same key of element j)
 //	keyed-write      every effect of body is an assignment / delete / op-assignment on a map or slice element or a
 //	                 field of it, `m[k]…`, whose index k is (an expression of) the loop's own KEY variable — distinct
 //	                 iterations touch distinct elements, so the effects commute — or a set insert `m[k] = true|struct{}{}`
@@ -77,6 +79,7 @@ type classifier struct {
 	keyV  types.Object
 	valV  types.Object
 	win   string // see window()
+	bad   string // a sort call on a collected slice whose comparator does not sort (sortcomparators.go scProper)
 }
 
 func (c *classifier) obj(id *ast.Ident) types.Object {
@@ -453,6 +456,11 @@ func (c *classifier) firstSortCall(name string) *ast.CallExpr {
 		if mrIsSortCall(c.fset, call) {
 			a := mrNodeStr(c.fset, call.Args[0])
 			if (a == name || strings.HasSuffix(a, "("+name+")")) && (first == nil || call.Pos() < first.Pos()) {
+				if ok, why := scProper(c.fset, call); !ok {
+					// `sort.Slice(s, func(i, j int) bool { return s[i].K < s[i].K })` is not a sort
+					c.bad = fmt.Sprintf("the sort call on %s at line %d does not count: %s", name, c.fset.Position(call.Pos()).Line, why)
+					return true
+				}
 				first = call
 			}
 		}
@@ -587,7 +595,11 @@ func (c *classifier) classify() (string, string, bool) {
 				if len(unsorted) == 0 {
 					return "sorted-after", fmt.Sprintf("appends to %s, sorted later in the function; %d keyed writes, %d accumulations", strings.Join(names, ","), ef.keyed, ef.acc), errPath
 				}
-				return "order-sensitive", "appends to " + strings.Join(unsorted, ",") + " which is not sorted afterwards in the same function", errPath
+				ev := "appends to " + strings.Join(unsorted, ",") + " which is not sorted afterwards in the same function"
+				if c.bad != "" {
+					ev += " (" + c.bad + ")"
+				}
+				return "order-sensitive", ev, errPath
 			}
 			if ef.keyed > 0 {
 				return "keyed-write", fmt.Sprintf("%d element writes indexed by the loop key / set inserts, %d commutative accumulations", ef.keyed, ef.acc), errPath
